@@ -1322,25 +1322,46 @@ def check_conc(chk, cases):
             dup = [m for m in obs if exp.get(m, 0) >= 1 and obs[m] > exp[m]]
             if dup:
                 viol = "more than one record emitted for one decision"
+        def marker(x):
+            # what identifies the call in its record, outside the redacted part (direct: payload["trace"]; Guard: resource id)
+            mk = x["payload"].get("trace") if c["via"] == "direct" else ((x["payload"].get("env") or {}).get("resource") or {}).get("id")
+            return mk if isinstance(mk, str) and mk else None
+
+        differing = []           # calls whose record was emitted, but not as the model's record
         if viol is None:
-            missing = exp - obs
+            # a call whose model record is absent has either a record of different content (paired with a surplus record: by
+            # its marker, else -- marker redacted / truncated away -- with any surplus record left) or no record at all: dropped
+            missing, extra = exp - obs, list((obs - exp).elements())
+            lacking = []
             for x in ms:
                 w = want[x["label"]]
                 if w is not None and missing.get(w, 0) > 0:
                     missing[w] -= 1
+                    lacking.append(x)
+            for x in list(lacking):
+                hit = next((m for m in extra if marker(x) and marker(x) in m), None)
+                if hit is not None:
+                    extra.remove(hit)
+                    lacking.remove(x)
+                    differing.append(x["label"])
+            # surplus records that carry the marker of a call the model drops belong to that call
+            for x in ms:
+                if want[x["label"]] is None and marker(x):
+                    hit = next((m for m in extra if marker(x) in m), None)
+                    if hit is not None:
+                        extra.remove(hit)
+                        cl = sampling_clause(kw, x["payload"], True)
+                        if cl and viol is None:
+                            viol = cl + ": call %s" % x["label"]
+            anonymous = [m for m in extra if not any(marker(x) and marker(x) in m for x in ms)]
+            while lacking and anonymous:
+                anonymous.pop()
+                differing.append(lacking.pop()["label"])
+            if viol is None:
+                for x in lacking:
                     cl = sampling_clause(kw, x["payload"], False)
                     if cl:
-                        viol = cl + ": the record of call %s is missing" % x["label"]
-                        break
-        if viol is None:
-            extra = obs - exp
-            for x in ms:
-                # a record of a call the sampling rule forbids: recognised by the marker of the call (outside the redacted part)
-                mk = x["payload"].get("trace") if c["via"] == "direct" else (x["payload"].get("env") or {}).get("resource", {}).get("id")
-                if want[x["label"]] is None and isinstance(mk, str) and any(mk in m for m in extra):
-                    cl = sampling_clause(kw, x["payload"], True)
-                    if cl:
-                        viol = cl + ": call %s" % x["label"]
+                        viol = cl + ": no record of call %s reached the destination logger" % x["label"]
                         break
         if viol is None and c["via"] == "direct" and not in_place:
             for x in ms:
@@ -1353,7 +1374,8 @@ def check_conc(chk, cases):
             continue
         diff = None
         if obs != exp:
-            diff = "the multiset of emitted records differs from the model's records of the selected calls"
+            diff = ("the multiset of emitted records differs from the model's records of the selected calls"
+                    + (" (emitted with another content: %s)" % ", ".join(sorted(differing)) if differing else ""))
         elif got["draws"] != model_view["draws"] or got["unscripted_draws"]:
             diff = "number of random draws consumed"
         elif c["via"] == "direct" and any(x["m"][0] == "emitted" and x["m"][3] and not same(got["payloads_after"][x["label"]].get("env"), x["m"][4])
